@@ -25,6 +25,8 @@ func main() {
 		os.Exit(cmdDump(os.Args[2:]))
 	case "selftest":
 		os.Exit(cmdSelftest(os.Args[2:]))
+	case "invokes":
+		os.Exit(cmdInvokes(os.Args[2:]))
 	case "ssa":
 		os.Exit(cmdSSA(os.Args[2:]))
 	default:
@@ -79,6 +81,32 @@ func selectWork(e *Engine, props []string, only string) []*FuncResult {
 		done[key] = true
 		out = append(out, e.verifyFunc(fn, ct, false, nil))
 	}
+	// error-flow pass (C17): every function of the storage-facing packages
+	if len(props) == 0 || has(props, "C17") {
+		var ks []string
+		for k := range e.fns {
+			ks = append(ks, k)
+		}
+		sort.Strings(ks)
+		for _, k := range ks {
+			fn := e.fns[k]
+			if len(fn.Blocks) == 0 || fn.Synthetic != "" || fn.Pkg == nil && fn.Parent() == nil {
+				continue
+			}
+			if only != "" && !strings.Contains(k, only) {
+				continue
+			}
+			if !errflowScope(fn, e) {
+				continue
+			}
+			if ct := e.errflow[k]; ct != nil && ct.Assumed {
+				continue
+			}
+			if fr := e.verifyErrflow(fn, []string{"C17"}); fr != nil {
+				out = append(out, fr)
+			}
+		}
+	}
 	// zero-annotation safety sweep
 	var keys []string
 	for k := range e.fns {
@@ -114,6 +142,31 @@ func selectWork(e *Engine, props []string, only string) []*FuncResult {
 		out = append(out, e.verifyFunc(fn, nil, true, ps))
 	}
 	return out
+}
+
+// errflowScope: non-test functions of the root package and fastnode.
+func errflowScope(fn *ssa.Function, e *Engine) bool {
+	g := fn
+	for g.Parent() != nil {
+		g = g.Parent()
+	}
+	if g.Pkg == nil {
+		return false
+	}
+	switch g.Pkg.Pkg.Path() {
+	case "github.com/cosmos/iavl", "github.com/cosmos/iavl/fastnode":
+	default:
+		return false
+	}
+	if !fn.Pos().IsValid() {
+		return false
+	}
+	file := e.prog.Fset.Position(fn.Pos()).Filename
+	base := filepath.Base(file)
+	if strings.HasSuffix(base, "_test.go") || base == "tree_dotgraph.go" || base == "logger.go" || strings.HasPrefix(base, "zz_") {
+		return false
+	}
+	return true
 }
 
 // matchSweep: pattern is "file:<basename>" or a substring of the function key.
